@@ -3,6 +3,8 @@
 import json
 
 CLAIMED = {
+ "C01": ("model_checking", "6 C01, 0.6", "KmipSchema.tla (SchemaBase / Objects / Payloads1-4 / Messages): for every encodable class the fields, kinds, cardinalities, wire order and defining versions, and ObjTree(value, version) = the TTLV tree the specification prescribes (built on TTLV.tla). For every class x version the harness generates abstract values from the schema TLC exports (minimal, maximal, every optional field alone and alone absent, every boundary value of every primitive field: length residues mod 8, sign/width boundaries incl. 64-bit-aligned big integers, 0/False/empty, non-ASCII text; list lengths; random subsets; whole request/response messages), builds the library object the way a caller would, encodes, decodes with a fresh object, reads the decoded object's public attributes back, re-encodes; TraceSchema.tla decides every execution: encodable, decodable, tree(decoded) = tree(the caller's inputs), re-encoded bytes identical, library == agrees; TTLV-level mutations the decoder accepts: decode = decode o encode o decode. Bytes that differ from the prescribed tree while the round trip holds are reported as wire drift",
+         "explicit TLA+ wire schema exported by TLC to drive value generation + TLC validation of every recorded encode/decode execution (trace validation at the value and byte level)"),
  "C02": ("model_checking", "6 C02", "TTLV.tla: independent definition of the wire format (encoder with two's complement on byte sequences + recursive-descent recogniser), lemmas checked by TLC on a bounded tree universe; KmipEnvelope.tla: response envelope grammar with tag numbers from the KMIP tag table; bound to the code by TLC validating bytes the implementation emits: primitive encodings at boundary values against Enc of the intended value, every encoded request and every response a real KmipSession sends over random histories in all versions (all error classes, undecodable frames, unauthenticated connections, size limits)",
          "explicit TLA+ byte-level specification + TLC validation of emitted byte strings (trace validation at the byte level)"),
  "C19": ("model_checking", "6 C19", "Client.tla: the decision table client operation x response class x delivery with the prescribed outcome, enumerated completely by TLC; every row executed on a real ProxyKmipClient (KMIP 1.2 and 2.0) over a scripted socket whose responses are built with the real encoder and delivered in the prescribed pieces; every client method (with and without identifier) called against a real in-process KmipSession+KmipEngine under all six versions: the server must decode what the client emits",
@@ -43,7 +45,6 @@ CLAIMED = {
          "TLA+ model checking + trace validation; used-vs-fresh engine differential"),
 }
 NOT_YET = {
- "C01": "check not built yet in this round (TTLV.tla / KmipSchema.tla planned, DESIGN 6 C01)",
 }
 NOTE = ("Trusted base: TLC 1.8; the projection harness/absmap.py (abstract<->KMIP objects, SQLite->abstract store via stdlib sqlite3); "
         "the logical clock patched into kmip.services.server.engine; requests travel through the real TTLV encoder and decoder. "
